@@ -374,6 +374,25 @@ fn radix_preprocess_str(src: &str) -> Result<&[u8], DecodeError> {
     }
 }
 
+/// Check that every byte of `digits` is a digit below `radix` or an underscore
+fn radix_validate_digits(digits: &[u8], radix: u8) -> Result<(), DecodeError> {
+    let mut i = 0;
+    while i < digits.len() {
+        let digit = match digits[i] {
+            b @ b'0'..=b'9' => b - b'0',
+            b @ b'a'..=b'z' => b + 10 - b'a',
+            b @ b'A'..=b'Z' => b + 10 - b'A',
+            b'_' => 0,
+            _ => radix,
+        };
+        if digit >= radix {
+            return Err(DecodeError::InvalidDigit);
+        }
+        i += 1;
+    }
+    Ok(())
+}
+
 /// Decode a string of digits in base `radix`
 fn radix_decode_str_digits<D: DecodeByLimb>(
     src: &str,
@@ -430,6 +449,8 @@ fn radix_decode_str_digits<D: DecodeByLimb>(
         }
         // Append the new carried limb, if any
         if carry.0 != 0 && !out.push_limb(carry) {
+            // a malformed numeral is reported as such even when it is also too long
+            radix_validate_digits(&digits[digits_pos..], radix)?;
             return Err(DecodeError::InputSize);
         }
 
@@ -490,6 +511,8 @@ fn radix_decode_str_aligned_digits<D: DecodeByLimb>(
             }
             // Append the new most-significant limb
             if !out.push_limb(Limb(w)) {
+                // a malformed numeral is reported as such even when it is also too long
+                radix_validate_digits(&digits[..digits_pos], radix)?;
                 return Err(DecodeError::InputSize);
             }
 
